@@ -79,7 +79,7 @@ reg("C06", "proof", ["contracts.density:DensityFromOrbs", "contracts.density:Den
     extra_assumptions=["evaluate_basis / evaluate_deriv_basis replaced by their contracts (opaque orbital atoms; C05 and C09 are their proofs)",
                        "branch obligations and path feasibility discharged by z3 4.x/5.x (QF_NRA), 20 s budget per query; unknown = undecided"])
 
-reg("C15", "proof", ["contracts.stress:Stress", "contracts.stress:StressInline", "contracts.density:ReducedDM", "contracts.density:DerivDensity", "contracts.density:GradLapHess"],
+reg("C15", "proof", ["contracts.stress:Stress", "contracts.stress:StressInline", "contracts.deriv:GeneralKernel@quick", "contracts.deriv:EvalBlocks", "contracts.density:ReducedDM", "contracts.density:DerivDensity", "contracts.density:GradLapHess"],
     ["gbasis.evals.stress_tensor.evaluate_stress_tensor", "gbasis.evals.stress_tensor.evaluate_ehrenfest_force",
      "gbasis.evals.stress_tensor.evaluate_ehrenfest_hessian"],
     extra_assumptions=["density routines replaced by their contracts (proved under C06, re-discharged here)",
